@@ -2634,7 +2634,12 @@ public:
     {
         size_type c = 0;
 
-        while (erase_one(key))
+        // key may refer to a key stored in the tree itself, as in
+        // erase(*begin()): work on a copy, the original is gone or overwritten
+        // after the first erase_one().
+        const key_type key_copy(key);
+
+        while (erase_one(key_copy))
         {
             ++c;
             if (!allow_duplicates)
